@@ -94,6 +94,7 @@ func Load(repoDir, repoMod string, patterns []string, specDir string) (*Engine, 
 			}
 		}
 	}
+	e.DB.ResolveSameAs()
 	e.scanGlobals()
 	e.LoadSecs = time.Since(start).Seconds()
 	return e, nil
@@ -192,6 +193,8 @@ func (e *Engine) modKeys(ct *Contract) []string {
 		if t, ok := e.resolveTypeName(ct.Pkg, tn); ok {
 			if _, isStruct := structOf(t); isStruct {
 				heapKeysOfStore("", t, set)
+			} else if sl, isSlice := t.Underlying().(*types.Slice); isSlice {
+				heapKeysOfStore(elemMapKey(sl.Elem()), sl.Elem(), set)
 			} else if mt, isMap := t.Underlying().(*types.Map); isMap {
 				set[mapKey(mt)+"#dom"] = true
 				set[mapKey(mt)+"#val"] = true
